@@ -149,7 +149,7 @@ def gen_literal(rng, refs):
 
 
 def generate(rng, seed, size):
-    target = {"small": 16, "base": 72, "large": 120, "robust": 24}[size]
+    target = {"small": 16, "base": 72, "large": 120, "robust": 40}[size]
     robust = size == "robust"
     ROBUST[0] = robust
     out = []
@@ -178,6 +178,11 @@ def generate(rng, seed, size):
             ident = "V%d" % vi if rng.random() < 0.8 else rng.choice(["Alpha", "BetaGamma", "X1", "HTTPServer", "snake_name"]) + str(vi)
             if style is not None:
                 ident = simple.pop()
+            forced_braces = robust and ei < 9 and vi == 0
+            if forced_braces:
+                # systematic part of the robust corpus: escaped braces in fixed names of every variant kind
+                kind = ["named", "tuple", "unit"][ei % 3]
+                disabled = False
             if forced_style and vi == 0:
                 ident = ["ÉcranTitre", "ÜberGross", "ÑandúÁgil"][ei % 3]
                 if ident in simple:
@@ -186,15 +191,18 @@ def generate(rng, seed, size):
                 disabled = False
             disabled = rng.random() < 0.1 and vi > 0
             v = dict(ident=ident, kind=kind, disabled=disabled, attrs=[], fixed=None, literal=None, tys=[], fnames=[], ref=None)
+            brace_name = ["{{literal}}", "a{{b", "}}x{{", "set{{}}", "{{", "}}", "{{0}}", "x{{y}}z", "{{{{"][ei % 9] if forced_braces else None
             if kind == "unit":
                 attrs, canon = gen_fixed_attrs(rng)
                 if forced_style and vi == 0:
                     attrs, canon = [], None
+                if forced_braces:
+                    attrs, canon = ["#[strum(to_string = %s)]" % rs(brace_name)], brace_name
                 v["attrs"] = attrs
                 v["fixed"] = canon if canon is not None else (casing.convert(ident, style) if style else ident)
             else:
                 nf = rng.randint(1, 3)
-                interp = rng.random() < 0.55 and not disabled and not (not robust and 11 <= ei < 16)
+                interp = rng.random() < 0.55 and not disabled and not (not robust and 11 <= ei < 16) and not forced_braces
                 if kind == "tuple" and interp and rng.random() < 0.06:
                     nf = rng.randint(11, 13)  # positional indices with two digits
                 if kind == "named":
@@ -226,6 +234,8 @@ def generate(rng, seed, size):
                 else:
                     v["tys"] = gen_fields(rng, nf, [], robust)
                     attrs, canon = gen_fixed_attrs(rng)
+                    if forced_braces:
+                        attrs, canon = ["#[strum(to_string = %s)]" % rs(brace_name)], brace_name
                     v["attrs"] = attrs
                     v["fixed"] = canon if canon is not None else (casing.convert(ident, style) if style else ident)
             variants.append(v)
